@@ -287,7 +287,7 @@ CHECKS = {
     "C20": dict(
         engine="tlc-indels",
         technique="TLC model checking of Indels.tla (clustering loop, D9 deviation shown) + TLC batch validation of "
-                  "the real cluster_indels / write_indel_file / both look_for_indels_in_breakage",
+                  "the real cluster_indels / write_indel_file / both look_for_indels_in_breakage; TLC model checking of Finder.tla (the molecule indel finder) + trace validation (Trace_Finder) of the calls it writes for COMA's own files",
         text="TLC exhausts sorted lists of <=4 calls on two chromosomes against the conservation clauses; the same "
              "lists (scaled to the real blur) and random ones go through the real cluster_indels and write_indel_file "
              "(file parsed independently; a share of the list objects is clustered / written a second time and judged "
